@@ -109,6 +109,23 @@ def fixed_families():
         cfg = {"force-file-write": True, "filename": filename, "dir": dirv, "pkgname": "gen", "packages": pk}
         files[".mockery.yml"] = json.dumps(cfg, indent=1)
         fams.append({"kind": "family", "i": -1 - len(fams), "files": files, "placement": "templated-over-structname-" + tag})
+    # explicitly configured packages nested below recursive ones, each level with its own dir/structname: which ancestor a package
+    # inherits from must not depend on the order in which the packages map is walked
+    for tag, root_recursive in (("nested-explicit", False), ("nested-explicit-root-recursive", True)):
+        files = {}
+        for d, nm in (("a", "Alpha"), ("a/b", "Beta"), ("a/b/c", "Gamma"), ("a/b/c/d", "Delta"), ("a/x", "Xi"), ("z", "Zeta")):
+            files[d + "/s.go"] = "package %s\n\ntype %s interface{ M(x int) error }\n" % (d.rsplit("/", 1)[-1], nm)
+        pk = {MOD + "/a": {"config": {"recursive": True, "dir": "mocks/{{.SrcPackageName}}", "structname": "Mock{{.InterfaceName}}", "pkgname": "mocks"}},
+              MOD + "/a/b": {"config": {"dir": "fakes/{{.SrcPackageName}}", "structname": "Fake{{.InterfaceName}}", "pkgname": "fakes"}},
+              MOD + "/a/b/c": {"config": {}}, MOD + "/a/b/c/d": None, MOD + "/z": {"config": {"template-data": {"mock-build-tags": "ztag"}}}}
+        if not root_recursive:
+            pk[MOD + "/a/b"]["config"]["recursive"] = True
+        cfg = {"all": True, "force-file-write": True, "filename": "m_{{.InterfaceName}}.go", "packages": pk}
+        if root_recursive:
+            cfg["recursive"] = True
+            pk[MOD + "/a"]["config"].pop("recursive")
+        files[".mockery.yml"] = json.dumps(cfg, indent=1)
+        fams.append({"kind": "family", "i": -1 - len(fams), "files": files, "placement": tag})
     return fams
 
 
